@@ -105,4 +105,19 @@ theorem clean_means_upToDate (e : Env) (hc : Coh e) (b : Nat) (bm : BuildM) (hb 
           exact this
   · rw [← hst.toSameButCache.hashes, f3, hman]
 
+/-- **Up to date is a matter of the step's own files only.**  Whatever happens elsewhere - other
+    commands running, rewriting their own outputs, leaving outputs untouched (restat-style) - a step
+    stays up to date as long as the modification times of the files IT names, its remembered
+    dependency list and its attached signature are unchanged. -/
+theorem upToDate_frame (e e' : Env) (b : Nat) (bm : BuildM) (hg : e'.g = e.g) (hd : discOf e' b = discOf e b)
+    (hh : assocGet e'.hashes b = assocGet e.hashes b)
+    (hm : ∀ f ∈ bm.dirtying ++ discOf e b ++ bm.outs, mtimeOf e' f = mtimeOf e f) (u : UpToDate e b bm) :
+    UpToDate e' b bm := by
+  refine ⟨?_, ?_⟩
+  · intro f hf
+    rw [hd] at hf
+    rw [hm f hf]; exact u.present f hf
+  · rw [hh, u.recorded, manifestFs_congr e e' bm b hg hd hm]
+
+
 end N2V.Work
